@@ -112,6 +112,16 @@ class El:
         self.t = z3.If(mask.t, new, self.t)
 
 
+def extract(model):
+    """solver counterexample -> concrete (atoms, support, reward, done, gamma) for the native run of the real _dqn_loss"""
+    from pyvc.main import mget, mnum
+    N = mnum(mget(model, "num_atoms")); vmin = mnum(mget(model, "v_min")); vmax = mnum(mget(model, "v_max"))
+    r = mnum(mget(model, "reward")); d = mnum(mget(model, "done")); g = mnum(mget(model, "gamma"))
+    if None in (N, vmin, vmax, r, d, g) or N > 512:
+        return None
+    return {"N": int(N), "vmin": vmin, "vmax": vmax, "reward": r, "done": d, "gamma": g}
+
+
 def build(tier):
     P = Prop("C18")
     N = z3.Int("num_atoms")
@@ -147,7 +157,7 @@ def build(tier):
                requires=[], frame_fields=False,
                ensures=[f"elem_post(L, u, b, '{c}')" for c in clauses] +
                        ["b.t * dz + vmin == (vmin if reward_target < vmin else (vmax if reward_target > vmax else reward_target))"],
-               replay="c18:projection")
+               replay={"adapter": "c18:projection", "extract": extract})
     P.specns["reward_target"] = r + (1 - d) * g * (vmin + z3.ToReal(j) * dz)
 
     def wiring():
